@@ -66,6 +66,23 @@ func classifyPartValue(p *Program, ps partStore) (string, bool, string) {
 	if hasCall("io.ReadAll") {
 		return "copy-from-zip", true, "bytes read from the opened archive, stored unmodified"
 	}
+	// the same copy written with a bytes.Buffer: buf.ReadFrom(rc) / io.Copy(&buf, rc); buf.Bytes()
+	if hasCall("(*bytes.Buffer).Bytes") {
+		filled, other := false, false
+		allInstrs(ps.Fn, func(in ssa.Instruction) {
+			if c, ok := in.(ssa.CallInstruction); ok {
+				switch cn := calleeName(c); {
+				case cn == "(*bytes.Buffer).ReadFrom" || cn == "io.Copy" || cn == "io.CopyN":
+					filled = true
+				case strings.HasPrefix(cn, "(*bytes.Buffer).Write"):
+					other = true
+				}
+			}
+		})
+		if filled && !other {
+			return "copy-from-zip", true, "bytes copied from the opened archive through a bytes.Buffer, stored unmodified"
+		}
+	}
 	if _, isMake := v.(*ssa.MakeSlice); isMake {
 		return "copy", true, "fresh buffer filled by copy()"
 	}
